@@ -643,191 +643,216 @@ static void runC07Regime(Ctx& c, long idx, const ModelDesc& d, const ConSpec& cs
         if (!sphericalOK(k.m, s)) { c.skip("spherical-singularity"); return; }
     }
     sys.realize(s, Stage::Velocity);
-    const Vector q0 = s.getQ(), u0 = s.getU(); const double t0 = s.getTime();
-    Json wit = Json::obj().set("model", d.toJson()).set("constraint", cs.toJson()).set("regime", regime).set("attach", acName(attachClass)).set("q", jV(q0)).set("u", jV(u0)).set("t", t0);
-    auto W = [&](const char* what) { return [=]() { Json j = wit; j.set("what", what); return j; }; };
+    // All oracles are local to one <t,q,u>: they are applied first to the state as generated and then again
+    // after the SAME State object has been changed in u only, in q only (and in time only for time-dependent
+    // constraints) and re-realized, so that results cached at the previous <t,q,u> must not leak through.
+    auto judge = [&](const std::string& sfx, bool light) {
+        const Vector q0 = s.getQ(), u0 = s.getU(); const double t0 = s.getTime();
+        Json wit = Json::obj().set("model", d.toJson()).set("constraint", cs.toJson()).set("regime", regime).set("attach", acName(attachClass)).set("q", jV(q0)).set("u", jV(u0)).set("t", t0).set("pass", sfx.empty() ? "first evaluation" : sfx.c_str() + 1);
+        auto W = [&](const char* what) { return [=]() { Json j = wit; j.set("what", what); return j; }; };
 
-    const Vector qerr = s.getQErr(), uerr = s.getUErr();
-    c.require("finite:errors:" + Tn, allFinite(qerr) && allFinite(uerr), W("qerr/uerr has NaN/Inf"));
-    // constraint-level accessors agree with the State's slices (single constraint => offset 0)
-    if (mp) c.check("accessors:getPositionErrorsAsVector:" + Tn, vdiff(k.bc.c.getPositionErrorsAsVector(s), sub(qerr, 0, mp)), E1 * (vmaxabs(qerr) + 1), W("Constraint::getPositionErrorsAsVector != State qerr slice"));
-    if (mp + mv) c.check("accessors:getVelocityErrorsAsVector:" + Tn, vdiff(k.bc.c.getVelocityErrorsAsVector(s), uerr), E1 * (vmaxabs(uerr) + 1), W("Constraint::getVelocityErrorsAsVector != State uerr"));
+        const Vector qerr = s.getQErr(), uerr = s.getUErr();
+        c.require("finite:errors:" + Tn + sfx, allFinite(qerr) && allFinite(uerr), W("qerr/uerr has NaN/Inf"));
+        // constraint-level accessors agree with the State's slices (single constraint => offset 0)
+        if (mp) c.check("accessors:getPositionErrorsAsVector:" + Tn + sfx, vdiff(k.bc.c.getPositionErrorsAsVector(s), sub(qerr, 0, mp)), E1 * (vmaxabs(qerr) + 1), W("Constraint::getPositionErrorsAsVector != State qerr slice"));
+        if (mp + mv) c.check("accessors:getVelocityErrorsAsVector:" + Tn + sfx, vdiff(k.bc.c.getVelocityErrorsAsVector(s), uerr), E1 * (vmaxabs(uerr) + 1), W("Constraint::getVelocityErrorsAsVector != State uerr"));
 
-    // ---------------------------------------------------------------- G by its routes (iii)
-    c.setPhase("C07 G routes " + T);
-    Matrix G, Gt, PV, PVt, P, Pt, Pq, Pqt;
-    matter.calcG(s, G); matter.calcGTranspose(s, Gt);
-    c.require("finite:G:" + Tn, finiteM(G) && finiteM(Gt), W("calcG/calcGTranspose has NaN/Inf"));
-    c.require("shape:G:" + Tn, G.nrow() == mt && G.ncol() == nu && Gt.nrow() == nu && Gt.ncol() == mt, W("calcG/calcGTranspose wrong shape"));
-    const double nG = mmaxabs(G) + 1e-3, tolG = E1 * nG;
-    c.check("G:calcG-vs-calcGTranspose:" + Tn, mdiffT(G, Gt), tolG, W("calcG != (calcGTranspose)^T"));
-    {
-        Vector bias; matter.calcBiasForMultiplyByG(s, bias);
-        Vector aerr0; matter.calcConstraintAccelerationErrors(s, Vector(nu, 0.0), aerr0);
-        Vector aerrE; matter.calcConstraintAccelerationErrors(s, Vector(), aerrE);
-        Vector biasA; matter.calcBiasForAccelerationConstraints(s, biasA);
-        c.check("G:bias-operator-vs-empty-udot:" + Tn, vdiff(aerrE, biasA), E1 * (vmaxabs(biasA) + 1), W("calcConstraintAccelerationErrors(empty udot) != calcBiasForAccelerationConstraints"));
-        // documented: an empty udot means all-zero udot; the bias is the error at udot = 0
-        c.check("bias:calcBiasForAccelerationConstraints-vs-zero-udot:" + Tn, vdiff(aerr0, biasA), E1 * (vmaxabs(aerr0) + 1), [&] { Json j = wit; j.set("what", "calcBiasForAccelerationConstraints / calcConstraintAccelerationErrors(empty) != calcConstraintAccelerationErrors(udot = 0)").set("zero_udot", jV(aerr0)).set("empty_udot", jV(aerrE)).set("biasOp", jV(biasA)); return j; });
-        double e2 = 0, e3 = 0, e5 = 0;
-        for (int j = 0; j < nu; ++j) {
-            Vector e(nu, 0.0), o1, o2, o3; e[j] = 1;
-            matter.multiplyByG(s, e, o1); matter.multiplyByG(s, e, bias, o2);
-            matter.calcConstraintAccelerationErrors(s, e, o3);
-            for (int i = 0; i < mt; ++i) { e2 = std::max(e2, std::fabs(o1[i] - G(i, j))); e3 = std::max(e3, std::fabs(o2[i] - G(i, j))); e5 = std::max(e5, std::fabs(o3[i] - aerr0[i] - G(i, j))); }
+        // ---------------------------------------------------------------- G by its routes (iii)
+        c.setPhase("C07 G routes " + T);
+        Matrix G, Gt, PV, PVt, P, Pt, Pq, Pqt;
+        matter.calcG(s, G); matter.calcGTranspose(s, Gt);
+        c.require("finite:G:" + Tn + sfx, finiteM(G) && finiteM(Gt), W("calcG/calcGTranspose has NaN/Inf"));
+        c.require("shape:G:" + Tn + sfx, G.nrow() == mt && G.ncol() == nu && Gt.nrow() == nu && Gt.ncol() == mt, W("calcG/calcGTranspose wrong shape"));
+        const double nG = mmaxabs(G) + 1e-3, tolG = E1 * nG;
+        c.check("G:calcG-vs-calcGTranspose:" + Tn + sfx, mdiffT(G, Gt), tolG, W("calcG != (calcGTranspose)^T"));
+        {
+            Vector bias; matter.calcBiasForMultiplyByG(s, bias);
+            Vector aerr0; matter.calcConstraintAccelerationErrors(s, Vector(nu, 0.0), aerr0);
+            Vector aerrE; matter.calcConstraintAccelerationErrors(s, Vector(), aerrE);
+            Vector biasA; matter.calcBiasForAccelerationConstraints(s, biasA);
+            c.check("G:bias-operator-vs-empty-udot:" + Tn + sfx, vdiff(aerrE, biasA), E1 * (vmaxabs(biasA) + 1), W("calcConstraintAccelerationErrors(empty udot) != calcBiasForAccelerationConstraints"));
+            // documented: an empty udot means all-zero udot; the bias is the error at udot = 0
+            c.check("bias:calcBiasForAccelerationConstraints-vs-zero-udot:" + Tn + sfx, vdiff(aerr0, biasA), E1 * (vmaxabs(aerr0) + 1), [&] { Json j = wit; j.set("what", "calcBiasForAccelerationConstraints / calcConstraintAccelerationErrors(empty) != calcConstraintAccelerationErrors(udot = 0)").set("zero_udot", jV(aerr0)).set("empty_udot", jV(aerrE)).set("biasOp", jV(biasA)); return j; });
+            double e2 = 0, e3 = 0, e5 = 0;
+            for (int j = 0; j < nu; ++j) {
+                Vector e(nu, 0.0), o1, o2, o3; e[j] = 1;
+                matter.multiplyByG(s, e, o1); matter.multiplyByG(s, e, bias, o2);
+                matter.calcConstraintAccelerationErrors(s, e, o3);
+                for (int i = 0; i < mt; ++i) { e2 = std::max(e2, std::fabs(o1[i] - G(i, j))); e3 = std::max(e3, std::fabs(o2[i] - G(i, j))); e5 = std::max(e5, std::fabs(o3[i] - aerr0[i] - G(i, j))); }
+            }
+            c.check("G:calcG-vs-multiplyByG:" + Tn + sfx, std::max(e2, e3), tolG, W("calcG column != multiplyByG(e_j)"));
+            c.check("G:calcG-vs-accelerationErrors:" + Tn + sfx, e5, tolG + E1 * (vmaxabs(aerr0)), W("calcG column != calcConstraintAccelerationErrors(e_j) - bias"));
+            double e4 = 0;
+            for (int i = 0; i < mt; ++i) { Vector l(mt, 0.0), f; l[i] = 1; matter.multiplyByGTranspose(s, l, f); for (int j = 0; j < nu; ++j) e4 = std::max(e4, std::fabs(f[j] - G(i, j))); }
+            c.check("G:calcG-vs-multiplyByGTranspose:" + Tn + sfx, e4, tolG, W("calcG row != multiplyByGTranspose(e_i)"));
         }
-        c.check("G:calcG-vs-multiplyByG:" + Tn, std::max(e2, e3), tolG, W("calcG column != multiplyByG(e_j)"));
-        c.check("G:calcG-vs-accelerationErrors:" + Tn, e5, tolG + E1 * (vmaxabs(aerr0)), W("calcG column != calcConstraintAccelerationErrors(e_j) - bias"));
-        double e4 = 0;
-        for (int i = 0; i < mt; ++i) { Vector l(mt, 0.0), f; l[i] = 1; matter.multiplyByGTranspose(s, l, f); for (int j = 0; j < nu; ++j) e4 = std::max(e4, std::fabs(f[j] - G(i, j))); }
-        c.check("G:calcG-vs-multiplyByGTranspose:" + Tn, e4, tolG, W("calcG row != multiplyByGTranspose(e_i)"));
-    }
-    matter.calcPV(s, PV); matter.calcPVTranspose(s, PVt); matter.calcP(s, P); matter.calcPt(s, Pt);
-    {
-        Matrix Gpv(mp + mv, nu), Gp(mp, nu);
-        for (int i = 0; i < mp + mv; ++i) for (int j = 0; j < nu; ++j) { Gpv(i, j) = G(i, j); if (i < mp) Gp(i, j) = G(i, j); }
-        c.check("G:calcPV/calcP-submatrices:" + Tn, std::max(std::max(mdiff(PV, Gpv), mdiffT(Gpv, PVt)), std::max(mdiff(P, Gp), mdiffT(Gp, Pt))), tolG, W("calcPV/calcPVTranspose/calcP/calcPt != rows of calcG"));
-        double e = 0;
-        for (int rep = 0; rep < 2 && mp + mv > 0; ++rep) {
-            Vector x = randVector(r, nu), l = randVector(r, mp + mv), o, f; matter.multiplyByPV(s, x, o); matter.multiplyByPVTranspose(s, l, f);
-            e = std::max(e, std::max(vdiff(o, Vector(Gpv * x)), vdiff(f, Vector(~Gpv * l))));
+        matter.calcPV(s, PV); matter.calcPVTranspose(s, PVt); matter.calcP(s, P); matter.calcPt(s, Pt);
+        {
+            Matrix Gpv(mp + mv, nu), Gp(mp, nu);
+            for (int i = 0; i < mp + mv; ++i) for (int j = 0; j < nu; ++j) { Gpv(i, j) = G(i, j); if (i < mp) Gp(i, j) = G(i, j); }
+            c.check("G:calcPV/calcP-submatrices:" + Tn + sfx, std::max(std::max(mdiff(PV, Gpv), mdiffT(Gpv, PVt)), std::max(mdiff(P, Gp), mdiffT(Gp, Pt))), tolG, W("calcPV/calcPVTranspose/calcP/calcPt != rows of calcG"));
+            double e = 0;
+            for (int rep = 0; rep < 2 && mp + mv > 0; ++rep) {
+                Vector x = randVector(r, nu), l = randVector(r, mp + mv), o, f; matter.multiplyByPV(s, x, o); matter.multiplyByPVTranspose(s, l, f);
+                e = std::max(e, std::max(vdiff(o, Vector(Gpv * x)), vdiff(f, Vector(~Gpv * l))));
+            }
+            c.check("G:multiplyByPV-routes:" + Tn + sfx, e, tolG * nu, W("multiplyByPV / multiplyByPVTranspose != calcG rows"));
         }
-        c.check("G:multiplyByPV-routes:" + Tn, e, tolG * nu, W("multiplyByPV / multiplyByPVTranspose != calcG rows"));
-    }
-    // ---------------------------------------------------------------- Pq routes and Pq = dqerr/dq (ii)
-    matter.calcPq(s, Pq); matter.calcPqTranspose(s, Pqt);
-    c.require("shape:Pq:" + Tn, Pq.nrow() == mp && Pq.ncol() == nq && Pqt.nrow() == nq && Pqt.ncol() == mp, W("calcPq/calcPqTranspose wrong shape"));
-    if (mp > 0) {
-        c.setPhase("C07 Pq " + T);
-        const double nP = mmaxabs(Pq) + 1e-3;
-        // Pq and P are related through N on the feasible subspace (qdot = N u): Pq*N = P. Directions of q
-        // outside range(N) (quaternion scaling, spin of a Line mobilizer) carry no kinematic meaning, so
-        // the transposed route is compared after mapping with N as well; raw mismatches are counted only.
-        double e1 = 0, e2 = 0;
-        for (int i = 0; i < mp; ++i) {
-            Vector qrow(nq), qrow2(nq), o1, o2; for (int j = 0; j < nq; ++j) { qrow[j] = Pq(i, j); qrow2[j] = Pqt(j, i); }
-            matter.multiplyByN(s, true, qrow, o1); matter.multiplyByN(s, true, qrow2, o2);
-            for (int j = 0; j < nu; ++j) { e1 = std::max(e1, std::fabs(o1[j] - G(i, j))); e2 = std::max(e2, std::fabs(o2[j] - G(i, j))); }
+        // ---------------------------------------------------------------- Pq routes and Pq = dqerr/dq (ii)
+        matter.calcPq(s, Pq); matter.calcPqTranspose(s, Pqt);
+        c.require("shape:Pq:" + Tn + sfx, Pq.nrow() == mp && Pq.ncol() == nq && Pqt.nrow() == nq && Pqt.ncol() == mp, W("calcPq/calcPqTranspose wrong shape"));
+        if (mp > 0) {
+            c.setPhase("C07 Pq " + T);
+            const double nP = mmaxabs(Pq) + 1e-3;
+            // Pq and P are related through N on the feasible subspace (qdot = N u): Pq*N = P. Directions of q
+            // outside range(N) (quaternion scaling, spin of a Line mobilizer) carry no kinematic meaning, so
+            // the transposed route is compared after mapping with N as well; raw mismatches are counted only.
+            double e1 = 0, e2 = 0;
+            for (int i = 0; i < mp; ++i) {
+                Vector qrow(nq), qrow2(nq), o1, o2; for (int j = 0; j < nq; ++j) { qrow[j] = Pq(i, j); qrow2[j] = Pqt(j, i); }
+                matter.multiplyByN(s, true, qrow, o1); matter.multiplyByN(s, true, qrow2, o2);
+                for (int j = 0; j < nu; ++j) { e1 = std::max(e1, std::fabs(o1[j] - G(i, j))); e2 = std::max(e2, std::fabs(o2[j] - G(i, j))); }
+            }
+            c.check("Pq:calcPq*N=P:" + Tn + sfx, e1, E1 * (nP + nG) * 4, W("calcPq*N != P (holonomic rows of calcG)"));
+            c.check("Pq:calcPqTranspose^T*N=P:" + Tn + sfx, e2, E1 * (nP + nG) * 4, W("(calcPqTranspose)^T*N != P (holonomic rows of calcG)"));
+            if (mdiffT(Pq, Pqt) > E1 * nP) c.obs("side:calcPq!=calcPqTranspose^T-outside-range(N):" + Tn);
+            Vector biasp; matter.calcBiasForMultiplyByPq(s, biasp);
+            double eo = 0, eot = 0;
+            for (int rep = 0; rep < 2; ++rep) {
+                Vector x = randVector(r, nq), l = randVector(r, mp), o1, o2, f;
+                matter.multiplyByPq(s, x, o1); matter.multiplyByPq(s, x, biasp, o2); matter.multiplyByPqTranspose(s, l, f);
+                eo = std::max(eo, std::max(vdiff(o1, Vector(Pq * x)), vdiff(o2, Vector(Pq * x))));
+                eot = std::max(eot, vdiff(f, Vector(Pqt * l)));
+            }
+            c.check("Pq:multiplyByPq=calcPq*x:" + Tn + sfx, eo, E1 * nP * nq, W("multiplyByPq(x) != calcPq*x"));
+            c.check("Pq:multiplyByPqTranspose=calcPqTranspose*l:" + Tn + sfx, eot, E1 * nP * nq, W("multiplyByPqTranspose(l) != calcPqTranspose*l"));
+            // finite differences along random directions in q
+            State w = s;
+            bool pqKnown = false; double pqPredMax = 0;
+            for (int rep = 0; rep < 3; ++rep) {
+                Vector vdir = randVector(r, nu), dir; matter.multiplyByN(s, false, vdir, dir);   // feasible direction in q
+                auto f = [&](double tau) { w.updQ() = q0 + tau * dir; sys.realize(w, Stage::Position); return Vector(w.getQErr()(0, mp)); };
+                Vector fd; double dis; fd5(f, 2e-3, fd, dis);
+                Vector Pd = Pq * dir;
+                double scale = std::max(1.0, std::max(vmaxabs(Pd), rowSumMax(Pq) * vmaxabs(dir)));
+                double tol = E2 * scale;
+                if (dis > tol / 10) { c.skip("fd-disagree:Pq"); continue; }
+                Vector pred = predictVel(k, vdir);
+                c.check("Pq:FD-dqerr/dq:" + Tn + sfx, vmaxabs(Vector(fd - Pd - pred)), tol, [&] { Json j = wit; j.set("what", "Pq*d != d/dtau qerr(q+tau*d), d=N*v (after removing the predicted material-point term)").set("fd", jV(fd)).set("Pq_d", jV(Pd)).set("predicted", jV(pred)).set("dir", jV(dir)); return j; });
+                if (vmaxabs(pred) > 100 * tol) { pqKnown = true; pqPredMax = std::max(pqPredMax, vmaxabs(pred)); }
+            }
+            if (!light) {   // probe: an arbitrary (not necessarily feasible) direction; observation only
+                Vector dir = randVector(r, nq);
+                auto f = [&](double tau) { w.updQ() = q0 + tau * dir; sys.realize(w, Stage::Position); return Vector(w.getQErr()(0, mp)); };
+                Vector fd; double dis; fd5(f, 2e-3, fd, dis);
+                Vector Pd = Pq * dir, ud; matter.multiplyByNInv(s, false, dir, ud);
+                Vector pred = predictVel(k, ud);
+                double tol = E2 * std::max(1.0, rowSumMax(Pq) * vmaxabs(dir));
+                if (dis <= tol / 10 && vmaxabs(Vector(fd - Pd - pred)) > tol) c.obs("side:Pq*d!=dqerr/dq-for-d-outside-range(N):path=" + pathTypes(d, specNodes(cs), ctBodyBased(cs.type)) + (d.euler ? "/euler" : "/quat"));
+            }
+            if (pqKnown) c.viol("material-point-formulation:" + Tn + ":Pq", Json(wit).set("what", "calcPq differs from dqerr/dq by the closed-form term w_AB x perr (coincident-material-point formulation)").set("predicted_max", pqPredMax));
         }
-        c.check("Pq:calcPq*N=P:" + Tn, e1, E1 * (nP + nG) * 4, W("calcPq*N != P (holonomic rows of calcG)"));
-        c.check("Pq:calcPqTranspose^T*N=P:" + Tn, e2, E1 * (nP + nG) * 4, W("(calcPqTranspose)^T*N != P (holonomic rows of calcG)"));
-        if (mdiffT(Pq, Pqt) > E1 * nP) c.obs("side:calcPq!=calcPqTranspose^T-outside-range(N):" + Tn);
-        Vector biasp; matter.calcBiasForMultiplyByPq(s, biasp);
-        double eo = 0, eot = 0;
-        for (int rep = 0; rep < 2; ++rep) {
-            Vector x = randVector(r, nq), l = randVector(r, mp), o1, o2, f;
-            matter.multiplyByPq(s, x, o1); matter.multiplyByPq(s, x, biasp, o2); matter.multiplyByPqTranspose(s, l, f);
-            eo = std::max(eo, std::max(vdiff(o1, Vector(Pq * x)), vdiff(o2, Vector(Pq * x))));
-            eot = std::max(eot, vdiff(f, Vector(Pqt * l)));
-        }
-        c.check("Pq:multiplyByPq=calcPq*x:" + Tn, eo, E1 * nP * nq, W("multiplyByPq(x) != calcPq*x"));
-        c.check("Pq:multiplyByPqTranspose=calcPqTranspose*l:" + Tn, eot, E1 * nP * nq, W("multiplyByPqTranspose(l) != calcPqTranspose*l"));
-        // finite differences along random directions in q
-        State w = s;
-        bool pqKnown = false; double pqPredMax = 0;
-        for (int rep = 0; rep < 3; ++rep) {
-            Vector vdir = randVector(r, nu), dir; matter.multiplyByN(s, false, vdir, dir);   // feasible direction in q
-            auto f = [&](double tau) { w.updQ() = q0 + tau * dir; sys.realize(w, Stage::Position); return Vector(w.getQErr()(0, mp)); };
+        // ---------------------------------------------------------------- derivative hierarchy (i)
+        Vector qdot0; matter.multiplyByN(s, false, u0, qdot0);
+        if (mp > 0) {
+            c.setPhase("C07 hierarchy qerr->uerr " + T);
+            State w = s;
+            auto f = [&](double tau) { w.setTime(t0 + tau); w.updQ() = q0 + tau * qdot0; sys.realize(w, Stage::Position); return Vector(w.getQErr()(0, mp)); };
             Vector fd; double dis; fd5(f, 2e-3, fd, dis);
-            Vector Pd = Pq * dir;
-            double scale = std::max(1.0, std::max(vmaxabs(Pd), rowSumMax(Pq) * vmaxabs(dir)));
+            Vector pv = sub(uerr, 0, mp);
+            double scale = std::max(1.0, std::max(vmaxabs(pv), rowSumMax(Pq) * vmaxabs(qdot0)));
             double tol = E2 * scale;
-            if (dis > tol / 10) { c.skip("fd-disagree:Pq"); continue; }
-            Vector pred = predictVel(k, vdir);
-            c.check("Pq:FD-dqerr/dq:" + Tn, vmaxabs(Vector(fd - Pd - pred)), tol, [&] { Json j = wit; j.set("what", "Pq*d != d/dtau qerr(q+tau*d), d=N*v (after removing the predicted material-point term)").set("fd", jV(fd)).set("Pq_d", jV(Pd)).set("predicted", jV(pred)).set("dir", jV(dir)); return j; });
-            if (vmaxabs(pred) > 100 * tol) { pqKnown = true; pqPredMax = std::max(pqPredMax, vmaxabs(pred)); }
+            if (dis > tol / 10) c.skip("fd-disagree:qerr->uerr");
+            else {
+                Vector pred = predictVel(k, u0);
+                c.check("hierarchy:qerr->uerr:" + Tn + sfx, vmaxabs(Vector(fd - pv - pred)), tol, [&] { Json j = wit; j.set("what", "d/dt qerr along qdot=N*u != holonomic part of uerr (after removing the predicted material-point term)").set("fd", jV(fd)).set("uerr", jV(pv)).set("predicted", jV(pred)); return j; });
+                if (vmaxabs(pred) > 100 * tol) c.viol("material-point-formulation:" + Tn + ":velocity", Json(wit).set("what", "uerr differs from d/dt qerr by the closed-form term w_AB x perr (coincident-material-point formulation)").set("predicted", jV(pred)).set("fd_minus_uerr", jV(Vector(fd - pv))));
+            }
         }
-        {   // probe: an arbitrary (not necessarily feasible) direction; observation only
-            Vector dir = randVector(r, nq);
-            auto f = [&](double tau) { w.updQ() = q0 + tau * dir; sys.realize(w, Stage::Position); return Vector(w.getQErr()(0, mp)); };
+        if (mp + mv > 0) {
+            c.setPhase("C07 hierarchy uerr->udoterr " + T);
+            Vector udot = randVector(r, nu, 2.0);
+            Vector aerr; matter.calcConstraintAccelerationErrors(s, udot, aerr);
+            c.require("finite:udoterr:" + Tn + sfx, allFinite(aerr), W("calcConstraintAccelerationErrors has NaN/Inf"));
+            State w = s;
+            auto f = [&](double tau) { w.setTime(t0 + tau); w.updQ() = q0 + tau * qdot0; w.updU() = u0 + tau * udot; sys.realize(w, Stage::Velocity); return Vector(w.getUErr()); };
             Vector fd; double dis; fd5(f, 2e-3, fd, dis);
-            Vector Pd = Pq * dir, ud; matter.multiplyByNInv(s, false, dir, ud);
-            Vector pred = predictVel(k, ud);
-            double tol = E2 * std::max(1.0, rowSumMax(Pq) * vmaxabs(dir));
-            if (dis <= tol / 10 && vmaxabs(Vector(fd - Pd - pred)) > tol) c.obs("side:Pq*d!=dqerr/dq-for-d-outside-range(N):path=" + pathTypes(d, specNodes(cs), ctBodyBased(cs.type)) + (d.euler ? "/euler" : "/quat"));
+            Vector pva = sub(aerr, 0, mp + mv);
+            double scale = std::max(1.0, std::max(vmaxabs(pva), rowSumMax(G) * vmaxabs(udot)));
+            double tol = E2 * scale;
+            if (dis > tol / 10) c.skip("fd-disagree:uerr->udoterr");
+            else {
+                Vector pred = predictAcc(k);
+                c.check("hierarchy:uerr->udoterr:" + Tn + sfx, vmaxabs(Vector(fd - pva - pred)), tol, [&] { Json j = wit; j.set("what", "d/dt uerr along (qdot=N*u, udot) != calcConstraintAccelerationErrors(udot) (after removing the predicted material-point term)").set("fd", jV(fd)).set("udoterr", jV(pva)).set("predicted", jV(pred)).set("udot", jV(udot)); return j; });
+                if (vmaxabs(pred) > 100 * tol) c.viol(std::string(cs.type == CT_SphereOnSphereContactRoll ? "contact-frame-spin:" : "material-point-formulation:") + Tn + ":acceleration", Json(wit).set("what", cs.type == CT_SphereOnSphereContactRoll ? "udoterr differs from d/dt uerr by the closed-form term sigma*(verr_y,-verr_x): the contact frame's x,y axes spin about the centre line" : "udoterr differs from d/dt uerr by the closed-form coincident-material-point term").set("predicted", jV(pred)).set("fd_minus_udoterr", jV(Vector(fd - pva))));
+            }
         }
-        if (pqKnown) c.viol("material-point-formulation:" + Tn + ":Pq", Json(wit).set("what", "calcPq differs from dqerr/dq by the closed-form term w_AB x perr (coincident-material-point formulation)").set("predicted_max", pqPredMax));
-    }
-    // ---------------------------------------------------------------- derivative hierarchy (i)
-    Vector qdot0; matter.multiplyByN(s, false, u0, qdot0);
-    if (mp > 0) {
-        c.setPhase("C07 hierarchy qerr->uerr " + T);
-        State w = s;
-        auto f = [&](double tau) { w.setTime(t0 + tau); w.updQ() = q0 + tau * qdot0; sys.realize(w, Stage::Position); return Vector(w.getQErr()(0, mp)); };
-        Vector fd; double dis; fd5(f, 2e-3, fd, dis);
-        Vector pv = sub(uerr, 0, mp);
-        double scale = std::max(1.0, std::max(vmaxabs(pv), rowSumMax(Pq) * vmaxabs(qdot0)));
-        double tol = E2 * scale;
-        if (dis > tol / 10) c.skip("fd-disagree:qerr->uerr");
-        else {
-            Vector pred = predictVel(k, u0);
-            c.check("hierarchy:qerr->uerr:" + Tn, vmaxabs(Vector(fd - pv - pred)), tol, [&] { Json j = wit; j.set("what", "d/dt qerr along qdot=N*u != holonomic part of uerr (after removing the predicted material-point term)").set("fd", jV(fd)).set("uerr", jV(pv)).set("predicted", jV(pred)); return j; });
-            if (vmaxabs(pred) > 100 * tol) c.viol("material-point-formulation:" + Tn + ":velocity", Json(wit).set("what", "uerr differs from d/dt qerr by the closed-form term w_AB x perr (coincident-material-point formulation)").set("predicted", jV(pred)).set("fd_minus_uerr", jV(Vector(fd - pv))));
+        // ---------------------------------------------------------------- virtual work (iv)
+        if (mt > 0) {
+            c.setPhase("C07 virtual work " + T);
+            Vector lam = randVector(r, mt, 2.0), uu = randVector(r, nu);
+            Vector f; matter.multiplyByGTranspose(s, lam, f);
+            Vector_<SpatialVec> FG; Vector fm; matter.calcConstraintForcesFromMultipliers(s, lam, FG, fm);
+            c.require("shape:constraint-forces:" + Tn + sfx, FG.size() == k.nb && fm.size() == nu, W("calcConstraintForcesFromMultipliers wrong sizes"));
+            Vector JtF; matter.multiplyBySystemJacobianTranspose(s, FG, JtF);
+            double fsc = vmaxabs(f) + vmaxabs(JtF) + vmaxabs(fm) + 1e-3;
+            c.check("virtualwork:G^T*lambda=J^T*F+f:" + Tn + sfx, vdiff(f, Vector(JtF + fm)), E1 * fsc * 10, W("multiplyByGTranspose(lambda) != J^T*bodyForces + mobilityForces from calcConstraintForcesFromMultipliers"));
+            Vector_<SpatialVec> Vu; matter.multiplyBySystemJacobian(s, uu, Vu);
+            double pw = 0, psc = 0; for (int b = 0; b < k.nb; ++b) { pw += ~FG[b] * Vu[b]; psc += 6 * spMax(FG[b]) * spMax(Vu[b]); }
+            for (int j = 0; j < nu; ++j) { pw += fm[j] * uu[j]; psc += std::fabs(fm[j] * uu[j]); }
+            Vector Gu = G * uu; double lhs = ~lam * Gu; for (int i = 0; i < mt; ++i) psc += std::fabs(lam[i] * Gu[i]);
+            c.check("virtualwork:<lambda,G*u>=<F,V(u)>+<f,u>:" + Tn + sfx, std::fabs(lhs - pw), E1 * (psc + 1e-3) * 10, [&] { Json j = wit; j.set("what", "<lambda, calcG*u> != power of the forces produced from lambda along u").set("lhs", lhs).set("rhs", pw); return j; });
+            // per-constraint force operator (ancestor frame) against the system-level one
+            Vector_<SpatialVec> FA; Vector fc; k.bc.c.calcConstraintForcesFromMultipliers(s, lam, FA, fc);
+            int ncb = k.bc.c.getNumConstrainedBodies(), ncu = k.bc.c.getNumConstrainedU(s);
+            bool okShape = FA.size() == ncb && fc.size() == ncu;
+            c.require("shape:per-constraint-forces:" + Tn + sfx, okShape, W("Constraint::calcConstraintForcesFromMultipliers wrong sizes"));
+            if (okShape) {
+                Vector_<SpatialVec> F2(k.nb, SpatialVec(Vec3(0), Vec3(0))); Vector f2(nu, 0.0);
+                if (ncb) { const Rotation& R_GA = k.bc.c.getAncestorMobilizedBody().getBodyTransform(s).R();
+                           for (int i = 0; i < ncb; ++i) { int b = k.bc.c.getMobilizedBodyFromConstrainedBody(ConstrainedBodyIndex(i)).getMobilizedBodyIndex(); F2[b] += SpatialVec(R_GA * FA[i][0], R_GA * FA[i][1]); } }
+                for (int i = 0; i < ncu; ++i) f2[k.bc.c.getUIndexOfConstrainedU(s, ConstrainedUIndex(i))] += fc[i];
+                double e = vdiff(f2, fm), sc = vmaxabs(fm) + 1e-3; for (int b = 0; b < k.nb; ++b) { e = std::max(e, spMax(F2[b] - FG[b])); sc = std::max(sc, spMax(FG[b])); }
+                c.check("virtualwork:per-constraint-forces:" + Tn + sfx, e, E1 * sc * 10, W("Constraint::calcConstraintForcesFromMultipliers (in A) != system-level forces (in G)"));
+            }
         }
-    }
-    if (mp + mv > 0) {
-        c.setPhase("C07 hierarchy uerr->udoterr " + T);
-        Vector udot = randVector(r, nu, 2.0);
-        Vector aerr; matter.calcConstraintAccelerationErrors(s, udot, aerr);
-        c.require("finite:udoterr:" + Tn, allFinite(aerr), W("calcConstraintAccelerationErrors has NaN/Inf"));
-        State w = s;
-        auto f = [&](double tau) { w.setTime(t0 + tau); w.updQ() = q0 + tau * qdot0; w.updU() = u0 + tau * udot; sys.realize(w, Stage::Velocity); return Vector(w.getUErr()); };
-        Vector fd; double dis; fd5(f, 2e-3, fd, dis);
-        Vector pva = sub(aerr, 0, mp + mv);
-        double scale = std::max(1.0, std::max(vmaxabs(pva), rowSumMax(G) * vmaxabs(udot)));
-        double tol = E2 * scale;
-        if (dis > tol / 10) c.skip("fd-disagree:uerr->udoterr");
-        else {
-            Vector pred = predictAcc(k);
-            c.check("hierarchy:uerr->udoterr:" + Tn, vmaxabs(Vector(fd - pva - pred)), tol, [&] { Json j = wit; j.set("what", "d/dt uerr along (qdot=N*u, udot) != calcConstraintAccelerationErrors(udot) (after removing the predicted material-point term)").set("fd", jV(fd)).set("udoterr", jV(pva)).set("predicted", jV(pred)).set("udot", jV(udot)); return j; });
-            if (vmaxabs(pred) > 100 * tol) c.viol(std::string(cs.type == CT_SphereOnSphereContactRoll ? "contact-frame-spin:" : "material-point-formulation:") + Tn + ":acceleration", Json(wit).set("what", cs.type == CT_SphereOnSphereContactRoll ? "udoterr differs from d/dt uerr by the closed-form term sigma*(verr_y,-verr_x): the contact frame's x,y axes spin about the centre line" : "udoterr differs from d/dt uerr by the closed-form coincident-material-point term").set("predicted", jV(pred)).set("fd_minus_udoterr", jV(Vector(fd - pva))));
+        // ---------------------------------------------------------------- State's udoterr is the operator's (needs the multiplier solve; equality holds for any rank)
+        {
+            c.setPhase("C07 realize acceleration " + T);
+            State& w = s;   // the State itself is taken to Acceleration stage: the reuse passes below start from there
+            try {
+                sys.realize(w, Stage::Acceleration);
+                if (allFinite(w.getUDot())) {
+                    Vector ae; matter.calcConstraintAccelerationErrors(w, w.getUDot(), ae);
+                    c.check("udoterr:state-vs-operator:" + Tn + sfx, vdiff(ae, w.getUDotErr()), E1 * (vmaxabs(ae) + rowSumMax(G) * vmaxabs(w.getUDot()) + 1), W("State::getUDotErr != calcConstraintAccelerationErrors(getUDot)"));
+                    if (mt) c.check("accessors:getAccelerationErrorsAsVector:" + Tn + sfx, vdiff(k.bc.c.getAccelerationErrorsAsVector(w), w.getUDotErr()), E1 * (vmaxabs(w.getUDotErr()) + 1), W("Constraint::getAccelerationErrorsAsVector != State udoterr"));
+                } else c.obs("nonfinite-udot-single-constraint:" + Tn);
+            } catch (const std::exception& e) { c.obs(std::string("realize-acceleration-threw:") + Tn); }
         }
-    }
-    // ---------------------------------------------------------------- virtual work (iv)
-    if (mt > 0) {
-        c.setPhase("C07 virtual work " + T);
-        Vector lam = randVector(r, mt, 2.0), uu = randVector(r, nu);
-        Vector f; matter.multiplyByGTranspose(s, lam, f);
-        Vector_<SpatialVec> FG; Vector fm; matter.calcConstraintForcesFromMultipliers(s, lam, FG, fm);
-        c.require("shape:constraint-forces:" + Tn, FG.size() == k.nb && fm.size() == nu, W("calcConstraintForcesFromMultipliers wrong sizes"));
-        Vector JtF; matter.multiplyBySystemJacobianTranspose(s, FG, JtF);
-        double fsc = vmaxabs(f) + vmaxabs(JtF) + vmaxabs(fm) + 1e-3;
-        c.check("virtualwork:G^T*lambda=J^T*F+f:" + Tn, vdiff(f, Vector(JtF + fm)), E1 * fsc * 10, W("multiplyByGTranspose(lambda) != J^T*bodyForces + mobilityForces from calcConstraintForcesFromMultipliers"));
-        Vector_<SpatialVec> Vu; matter.multiplyBySystemJacobian(s, uu, Vu);
-        double pw = 0, psc = 0; for (int b = 0; b < k.nb; ++b) { pw += ~FG[b] * Vu[b]; psc += 6 * spMax(FG[b]) * spMax(Vu[b]); }
-        for (int j = 0; j < nu; ++j) { pw += fm[j] * uu[j]; psc += std::fabs(fm[j] * uu[j]); }
-        Vector Gu = G * uu; double lhs = ~lam * Gu; for (int i = 0; i < mt; ++i) psc += std::fabs(lam[i] * Gu[i]);
-        c.check("virtualwork:<lambda,G*u>=<F,V(u)>+<f,u>:" + Tn, std::fabs(lhs - pw), E1 * (psc + 1e-3) * 10, [&] { Json j = wit; j.set("what", "<lambda, calcG*u> != power of the forces produced from lambda along u").set("lhs", lhs).set("rhs", pw); return j; });
-        // per-constraint force operator (ancestor frame) against the system-level one
-        Vector_<SpatialVec> FA; Vector fc; k.bc.c.calcConstraintForcesFromMultipliers(s, lam, FA, fc);
-        int ncb = k.bc.c.getNumConstrainedBodies(), ncu = k.bc.c.getNumConstrainedU(s);
-        bool okShape = FA.size() == ncb && fc.size() == ncu;
-        c.require("shape:per-constraint-forces:" + Tn, okShape, W("Constraint::calcConstraintForcesFromMultipliers wrong sizes"));
-        if (okShape) {
-            Vector_<SpatialVec> F2(k.nb, SpatialVec(Vec3(0), Vec3(0))); Vector f2(nu, 0.0);
-            if (ncb) { const Rotation& R_GA = k.bc.c.getAncestorMobilizedBody().getBodyTransform(s).R();
-                       for (int i = 0; i < ncb; ++i) { int b = k.bc.c.getMobilizedBodyFromConstrainedBody(ConstrainedBodyIndex(i)).getMobilizedBodyIndex(); F2[b] += SpatialVec(R_GA * FA[i][0], R_GA * FA[i][1]); } }
-            for (int i = 0; i < ncu; ++i) f2[k.bc.c.getUIndexOfConstrainedU(s, ConstrainedUIndex(i))] += fc[i];
-            double e = vdiff(f2, fm), sc = vmaxabs(fm) + 1e-3; for (int b = 0; b < k.nb; ++b) { e = std::max(e, spMax(F2[b] - FG[b])); sc = std::max(sc, spMax(FG[b])); }
-            c.check("virtualwork:per-constraint-forces:" + Tn, e, E1 * sc * 10, W("Constraint::calcConstraintForcesFromMultipliers (in A) != system-level forces (in G)"));
-        }
-    }
-    // ---------------------------------------------------------------- State's udoterr is the operator's (needs the multiplier solve; equality holds for any rank)
-    {
-        c.setPhase("C07 realize acceleration " + T);
-        State w = s;
-        try {
-            sys.realize(w, Stage::Acceleration);
-            if (allFinite(w.getUDot())) {
-                Vector ae; matter.calcConstraintAccelerationErrors(w, w.getUDot(), ae);
-                c.check("udoterr:state-vs-operator:" + Tn, vdiff(ae, w.getUDotErr()), E1 * (vmaxabs(ae) + rowSumMax(G) * vmaxabs(w.getUDot()) + 1), W("State::getUDotErr != calcConstraintAccelerationErrors(getUDot)"));
-                if (mt) c.check("accessors:getAccelerationErrorsAsVector:" + Tn, vdiff(k.bc.c.getAccelerationErrorsAsVector(w), w.getUDotErr()), E1 * (vmaxabs(w.getUDotErr()) + 1), W("Constraint::getAccelerationErrorsAsVector != State udoterr"));
-            } else c.obs("nonfinite-udot-single-constraint:" + Tn);
-        } catch (const std::exception& e) { c.obs(std::string("realize-acceleration-threw:") + Tn); }
-    }
+    };
+    judge("", false);
+    {   c.setPhase("C07 reuse: u-only change " + T);
+        s.updU() = randVector(r, nu, 1.0);
+        sys.realize(s, Stage::Velocity);
+        judge(":after-u-only-change", true); }
+    {   c.setPhase("C07 reuse: q-only change " + T);
+        Vector v = randVector(r, nu), dq; matter.multiplyByN(s, false, v, dq);
+        s.updQ() = s.getQ() + 0.15 * dq;
+        if (!d.euler) for (size_t b = 0; b < k.m.bodies.size(); ++b) if (mobHasQuat(d.nodes[b].type)) {   // keep quaternions normalized
+            Vector qb = k.m.bodies[b].getQAsVector(s); double nrm = std::sqrt(qb[0] * qb[0] + qb[1] * qb[1] + qb[2] * qb[2] + qb[3] * qb[3]);
+            for (int i = 0; i < 4; ++i) qb[i] /= nrm; k.m.bodies[b].setQFromVector(s, qb); }
+        sys.realize(s, Stage::Position);
+        if (!sphericalOK(k.m, s)) c.skip("spherical-singularity(after-q-only-change)");
+        else { sys.realize(s, Stage::Velocity); judge(":after-q-only-change", true); } }
+    if (cs.type == CT_PrescribedMotion) {
+        c.setPhase("C07 reuse: time-only change " + T);
+        s.setTime(s.getTime() + 0.37);
+        sys.realize(s, Stage::Velocity);
+        judge(":after-time-only-change", true); }
+
     std::vector<int> nodes = specNodes(cs);
     c.cover(T + "|" + (ctBodyBased(cs.type) ? acName(attachClass) : "mobilizer") + "|" + regime + "|" + pathTypes(d, nodes, ctBodyBased(cs.type)));
-    if (c.wantSample()) c.sample(Json::obj().set("model", d.shortStr()).set("constraint", cs.toJson()).set("regime", regime).set("mp", mp).set("mv", mv).set("ma", ma).set("qerr", jV(qerr)).set("uerr", jV(uerr)));
+    if (c.wantSample()) c.sample(Json::obj().set("model", d.shortStr()).set("constraint", cs.toJson()).set("regime", regime).set("mp", mp).set("mv", mv).set("ma", ma));
 }
 
 static void checkC07(Ctx& c, long idx, Rng& r, int forceType) {
@@ -1148,6 +1173,56 @@ static void checkC08(Ctx& c, long idx, Rng& r) {
                 c.check("power:workless-set-zero-power", std::fabs(pw), 2 * l1 * ue + E1 * psc * 10, [&] { Json j = wit; j.set("what", "constraint power not zero for a workless set with uerr = 0").set("power", pw).set("uerr", ue).set("lambda1", l1).set("scale", psc); return j; });
             }
         }
+    }
+    // ---------------------------------------------------------------- reuse of the same State after a u-only / q-only change
+    // (results cached at the previous <q,u> must not leak through): the acceleration-level oracles are
+    // re-applied on the SAME State object and its results are compared with those of a State whose cache
+    // was invalidated from Position up. Non-redundant sets only (consistency by construction does not
+    // survive a change of u or q).
+    if (!redundant) for (int pass = 0; pass < 2; ++pass) {
+        const std::string sfx = pass == 0 ? ":after-u-only-change" : ":after-q-only-change";
+        c.setPhase("C08 reuse" + sfx);
+        if (pass == 0) s.updU() = randVector(r, nu, 1.0);
+        else {
+            Vector v = randVector(r, nu), dq; matter.multiplyByN(s, false, v, dq);
+            s.updQ() = s.getQ() + 0.15 * dq;
+            if (!sc.d.euler) for (size_t b = 0; b < A.m.bodies.size(); ++b) if (mobHasQuat(sc.d.nodes[b].type)) {
+                Vector qb = A.m.bodies[b].getQAsVector(s); double nrm = std::sqrt(qb[0] * qb[0] + qb[1] * qb[1] + qb[2] * qb[2] + qb[3] * qb[3]);
+                for (int i = 0; i < 4; ++i) qb[i] /= nrm; A.m.bodies[b].setQFromVector(s, qb); }
+            sys.realize(s, Stage::Position);
+            if (!sphericalOK(A.m, s)) { c.skip("spherical-singularity" + sfx); break; }
+        }
+        sys.realize(s, Stage::Acceleration);
+        if (!allFinite(s.getUDot()) || !allFinite(s.getMultipliers())) { c.viol("finite:acceleration-results" + sfx, wit); break; }
+        Matrix M2, MI2, G2; matter.calcM(s, M2); double cM2 = condEstimateM(M2);
+        if (!(cM2 <= 1e7)) { c.skip("ill-conditioned-M" + sfx); break; }
+        matter.calcMInv(s, MI2); matter.calcG(s, G2);
+        Matrix W2 = G2 * MI2 * ~G2; for (int i = 0; i < m; ++i) for (int j = 0; j < i; ++j) { double a = 0.5 * (W2(i, j) + W2(j, i)); W2(i, j) = W2(j, i) = a; }
+        std::vector<double> ev2; Matrix EV2; jacobiEig(W2, ev2, EV2);
+        double lmx = 0, lmn = 1e300; for (double x : ev2) { lmx = std::max(lmx, x); lmn = std::min(lmn, x); }
+        if (!(lmx > 0) || !(lmn > 1e-7 * lmx)) { c.skip("rank-deficient-or-ill-conditioned" + sfx); break; }
+        const double cE2 = lmx / lmn;
+        const Vector& f2 = sys.getMobilityForces(s, Stage::Dynamics); const Vector_<SpatialVec>& F2 = sys.getRigidBodyForces(s, Stage::Dynamics);
+        Vector ud0; Vector_<SpatialVec> A02; matter.calcAccelerationIgnoringConstraints(s, f2, F2, ud0, A02);
+        Vector ae0; matter.calcConstraintAccelerationErrors(s, ud0, ae0);
+        const Vector ud = s.getUDot(), lm = s.getMultipliers(), ue = s.getUDotErr();
+        const double scU = std::max(1.0, std::max(vmaxabs(ae0), rowSumMax(G2) * std::max(vmaxabs(ud), vmaxabs(ud0))));
+        const double tU = (E1 + 1e-13 * cE2) * scU;
+        c.check("udoterr:forward-dynamics" + sfx, vmaxabs(ue), tU, [&] { Json j = wit; j.set("what", "acceleration-level constraint errors not zero on a reused State").set("udoterr", jV(ue)); return j; });
+        { Vector ae; matter.calcConstraintAccelerationErrors(s, ud, ae); c.check("udoterr:state-vs-operator" + sfx, vdiff(ae, ue), tU, W("getUDotErr != calcConstraintAccelerationErrors(getUDot) on a reused State")); }
+        { Vector res, Gl, Mud, JtF, C0; matter.calcResidualForce(s, f2, F2, ud, lm, res); matter.multiplyByGTranspose(s, lm, Gl); matter.multiplyByM(s, ud, Mud); matter.multiplyBySystemJacobianTranspose(s, F2, JtF);
+          matter.calcResidualForceIgnoringConstraints(s, Vector(nu, 0.0), Vector_<SpatialVec>(), Vector(nu, 0.0), C0);
+          double scR = vmaxabs(Mud) + vmaxabs(f2) + vmaxabs(JtF) + vmaxabs(Gl) + vmaxabs(C0) + 1;
+          c.check("newton:calcResidualForce(udot,lambda)=0" + sfx, vmaxabs(res), (1e-12 * cM2 * nu + E1) * scR, W("Newton residual with the reported multipliers not zero on a reused State")); }
+        // the same <t,q,u> on a State whose cache is rebuilt from Position up
+        State fr = s; fr.updQ(); fr.updU();
+        sys.realize(fr, Stage::Acceleration);
+        double tD = (E1 + 1e-13 * cE2 + 1e-13 * cM2);
+        c.check("reuse:udot-vs-fresh-state" + sfx, vdiff(fr.getUDot(), ud), tD * (vmaxabs(ud) + 1), W("udot on a reused State != udot on a freshly realized State with the same t,q,u"));
+        c.check("reuse:udoterr-vs-fresh-state" + sfx, vdiff(fr.getUDotErr(), ue), tU, W("udoterr on a reused State != freshly realized State"));
+        c.check("reuse:multipliers-vs-fresh-state" + sfx, vdiff(fr.getMultipliers(), lm), tD * (vmaxabs(lm) + 1) * 10, W("multipliers on a reused State != freshly realized State"));
+        c.check("reuse:qerr-uerr-vs-fresh-state" + sfx, std::max(vdiff(fr.getQErr(), s.getQErr()), vdiff(fr.getUErr(), s.getUErr())), E1 * (vmaxabs(s.getQErr()) + vmaxabs(s.getUErr()) + 1), W("qerr/uerr on a reused State != freshly realized State"));
+        c.obs("reuse-pass-judged" + sfx);
     }
     // ---------------------------------------------------------------- coverage
     { int ne = 0; for (auto& x : sc.cons) if (!x.disabled) ++ne; c.obs("enabled-constraints=" + std::to_string(ne)); c.obs("equations-total", m); if (anyDisabled) c.obs("cases-with-disabled-constraints"); }
